@@ -133,6 +133,23 @@ def check_case(run, case):
                           observed={'a': oa[:6], 'b': ob[:6]}, expected={'a': base[La][:6], 'b': base[Lb][:6]})
             return
         run.ev('interleaved_pairs')
+        # (e) one generator object used again after it reported exhaustion (next_guess documents: "it will reset so if you call it again it will start looping
+        # over the same guesses"): the second round is the level again, whatever was generated before
+        for L in rng.sample(levels, min(4, len(levels))):
+            mc = MarkovCracker(grammar, L, CountingOptimizer(max_length=case['opt_len']))
+            rounds = []
+            for _ in range(2):
+                out = []
+                for _i in range(len(base[L]) + 3):
+                    g = mc.next_guess()
+                    if g is None:
+                        break
+                    out.append(g)
+                rounds.append(out)
+            if rounds[0] != base[L] or rounds[1] != base[L]:
+                run.violation(f'level {L}: a generator asked again after reporting exhaustion does not produce the level again ({len(rounds[1])} strings, the level has {len(base[L])})', case,
+                              observed=rounds[1][:8], expected=base[L][:8]); return
+            run.ev('generators_drained_twice')
         run.ev('cache_hits', hits['n'])
         run.ev('models')
         nz = {L: len(v) for L, v in expected.items() if v}
